@@ -125,7 +125,7 @@ PROPS = {
     },
     "C10": {
         "groups": [{"name": "diode", "tags": "verif", "run": "^VH_C10_((waiter|poller)_(1x2|2x1)_s[12]_(fresh|steady)_(close|quiesce)|stuck_writer_.*|bigbuf_.*)$", "flags": {"harness-timeout": 200, "max-paths": 150000, "witnesses": 1},
-                    "quick": {"preempt": 2, "run": "^VH_C10_((poller_(1x2|2x1|1x3)_s[12]_fresh|waiter_1x2_s[12]_fresh|poller_1x2_s[12]_steady)_(close|quiesce)|waiter_2x1_s[12]_fresh_quiesce|stuck_writer_poller|bigbuf_(poller|waiter))$"}, "thorough": {"preempt": 3, "harness-timeout": 3000, "max-paths": 5000000}}],
+                    "quick": {"preempt": 2, "run": "^VH_C10_((poller_(1x2|2x1|1x3)_s[12]_fresh|waiter_1x2_s[12]_fresh|poller_1x2_s[12]_steady)_(close|quiesce)|waiter_2x1_s[12]_fresh_quiesce|stuck_writer_poller|bigbuf_(poller|waiter))$"}, "thorough": {"preempt": 3, "harness-timeout": 900, "max-paths": 5000000}}],
         "level": "model_checking", "msg_filter": "^C10", "harness_msg_filter": {"^VH_C10_(stuck_writer|bigbuf)": "."}, "engine_only_kinds": ["assert", "deadlock", "panic"], "witness_replays": {"quick": 1, "thorough": 1},
         "bounds": {"quick": "real diode.Writer in waiter and poller mode; (producers x writes) in {1x2, 2x1} x ring size {1,2} x start {fresh = as NewManyToOne leaves it (first lap), steady = arbitrary symbolic position >= size and < 2^62}; both phases (quiesce / Close); preemption bound 2 with sleep-set reduction; a wrapped writer that blocks forever with 2 producers x 2 writes",
                    "thorough": "adds 1x3, 2x2 and ring size 3, preemption bound 3",
@@ -134,7 +134,7 @@ PROPS = {
     },
     "C11": {
         "groups": [{"name": "diode", "tags": "verif", "run": "^VH_C10_(waiter|poller)_(1x1|1x2|1x3|2x1)_s[12]_(fresh|steady)_close$", "flags": {"harness-timeout": 200, "max-paths": 150000, "witnesses": 1},
-                    "quick": {"preempt": 2, "run": "^VH_C10_((poller_(1x1|1x2|1x3|2x1)_s[12]_fresh)|(poller_(1x1|1x2)_s[12]_steady)|(waiter_(1x1|1x2)_s[12]_fresh))_close$"}, "thorough": {"preempt": 3, "harness-timeout": 3000, "max-paths": 5000000}}],
+                    "quick": {"preempt": 2, "run": "^VH_C10_((poller_(1x1|1x2|1x3|2x1)_s[12]_fresh)|(poller_(1x1|1x2)_s[12]_steady)|(waiter_(1x1|1x2)_s[12]_fresh))_close$"}, "thorough": {"preempt": 3, "harness-timeout": 900, "max-paths": 5000000}}],
         "level": "model_checking", "msg_filter": "^C11", "engine_only_kinds": ["assert", "deadlock", "panic"], "witness_replays": {"quick": 1, "thorough": 1},
         "bounds": {"quick": "Close phase: after all Writes returned and Close returned, delivered + reported >= written (== when no producer retried), nothing dropped while fewer messages than the ring size are outstanding; configurations 1x1, 1x2, 1x3, 2x1 x size {1,2} x {fresh, steady(symbolic)}, waiter and poller; preemption bound 2 + sleep sets",
                    "thorough": "adds 2x2, size 3, preemption bound 3"},
@@ -142,7 +142,7 @@ PROPS = {
     },
     "C12": {
         "groups": [{"name": "diode", "tags": "verif", "run": "^VH_C10_((waiter|poller)_(1x1|1x2|1x3|2x1)_s[12]_(fresh|steady)_quiesce|(waiter|poller)_(1x1|1x2|2x1)_s[12]_fresh_close|reenter_(waiter|poller))$", "flags": {"harness-timeout": 200, "max-paths": 150000, "witnesses": 1},
-                    "quick": {"preempt": 2, "run": "^VH_C10_(((poller_(1x1|1x2|1x3|2x1)_s[12]_fresh)|(poller_(1x1|1x2)_s[12]_steady)|(waiter_(1x1|1x2|2x1)_s[12]_fresh))_quiesce|(waiter|poller)_(1x1|1x2)_s1_fresh_close|reenter_(waiter|poller))$"}, "thorough": {"preempt": 3, "harness-timeout": 3000, "max-paths": 5000000}}],
+                    "quick": {"preempt": 2, "run": "^VH_C10_(((poller_(1x1|1x2|1x3|2x1)_s[12]_fresh)|(poller_(1x1|1x2)_s[12]_steady)|(waiter_(1x1|1x2|2x1)_s[12]_fresh))_quiesce|(waiter|poller)_(1x1|1x2)_s1_fresh_close|reenter_(waiter|poller))$"}, "thorough": {"preempt": 3, "harness-timeout": 900, "max-paths": 5000000}}],
         "level": "model_checking", "msg_filter": "^C12|^deadlock", "engine_only_kinds": ["assert", "deadlock", "panic"], "witness_replays": {"quick": 1, "thorough": 1},
         "bounds": {"quick": "quiesce phase: after all Writes returned, with NO later Write or Close, the system runs until no thread can move (the scheduler knows); every message must have been delivered or reported; Close must return in the Close phase (a global deadlock is a violation); configurations as C11",
                    "thorough": "adds 2x2, size 3, preemption bound 3"},
